@@ -83,7 +83,8 @@ CHECKS = {
              "is reported at that position. Scope of the proof: documents as built from a text; a document reached through "
              "incremental updates equals that one only where C01 holds (known finding C01-incparse). `Valid program` is read both ways: as `layout of a well-typed abstract program` (C15_valid) and as `document without any diagnostic and without lexical error` (C15_full_clean) - the two coincide by the front-end completeness theorem (Proofs/CompleteFront.v front_end_complete: a clean parse tree is the mandated tree of a derivation of its token vector, and no attached semantic error means well-typed). "
              "Tie to the code and search for failing inputs: model = server on generated programs, layouts and malformed "
-             "documents; well-formedness and classification oracles from the derivation.",
+             "documents; well-formedness and classification oracles from the derivation. "
+             "Nine client-capability variants, each stream decoded against the legend of its own session.",
         design_ref="DESIGN.md sections 5 (C15) and 10.2",
         technique="Coq proof (well-formedness of the delta-encoded stream for every analysed text; binding kinds and declaration modifier for every valid program via the parser round trip and the typing theorems) over a Gallina model + correspondence through the binary + classification oracle"),
     "C16": dict(
@@ -293,7 +294,8 @@ CHECKS = {
              "The check decides every generated history by (1) correspondence: the transcription of AnalyzedSource::update incl. "
              "the pinned incremental parser must reproduce the real updated document after every notification, and (2) an oracle "
              "update(doc) == new(text) field by field: a divergence predicted by the model is the known finding, any other "
-             "divergence (or any deviation from the model) is a violation.",
+             "divergence (or any deviation from the model) is a violation. "
+             "Server level: publishDiagnostics and six feature answers after edit histories (incl. edits of equal byte length in front of diagnostics) against the same text opened freshly.",
         design_ref="DESIGN.md section 5, C01",
         technique="Coq proof of the text/token layers and refutation of the tree layer + model/implementation correspondence discriminating the known finding"),
     "C20": dict(
@@ -318,7 +320,8 @@ CHECKS = {
              "counts and encode/decode round-trip for every body below 2^64 bytes (C19_bytes, C19_encode, C19_length_roundtrip, "
              "C19_stream). The model is tied to the real codec (io.rs + httparse + FramedRead, called directly) on every prefix, "
              "every two-way split and random multi-way splits of generated streams (extracted judge on all cases, coqc VM judge "
-             "on a sample), and the built binary is run under segmented writes. httparse's header grammar is modelled, not verified.",
+             "on a sample), and the built binary is run under segmented writes. httparse's header grammar is modelled, not verified. "
+             "Interactive sessions: one write of exactly n bytes of complete frames (powers of two, multiples of 4 KiB), then the client waits for the answers.",
         design_ref="DESIGN.md section 5, C19",
         technique="Coq proof (prefix-monotonicity of decode, induction over chunks) over a Gallina model of the codec + correspondence against the real codec and binary"),
     "C08": dict(
@@ -328,7 +331,8 @@ CHECKS = {
              "line = end of text), always yields a character boundary, is monotone (ordered ranges never panic), applying changes "
              "(ranged, batched, full-text) equals the client-side LSP text model along whole histories, and index->position->index "
              "round-trips. The model is tied to the server by comparing, after every didChange of generated histories, the server's "
-             "text ($/verif/text) with the Coq model (extracted + coqc VM judge) and with an independent python client model.",
+             "text ($/verif/text) with the Coq model (extracted + coqc VM judge) and with an independent python client model. "
+             "Reported ranges: every semantic token, cut out of the client's text under the LSP rules, is one lexer token of it; diagnostics start and end on token boundaries (lexemes glued to non-ASCII characters).",
         design_ref="DESIGN.md section 5, C08",
         technique="Coq proof over a Gallina model of document.rs against an LSP text specification + correspondence through the running server"),
     "C18": dict(
